@@ -74,7 +74,7 @@ PROPS = {
         "level_note": "Trusted: Go crypto/x509 for building certificates (serials it refuses to encode are outside the domain); explores sampled histories only; listings may contain non-matching extras without alarm (the statement only demands inclusion).",
         "assumptions": ["serial numbers are non-negative and encodable by crypto/x509 (<= 20 octets)"],
         "units": [{"pkg": "x/cert/keeper", "run": "^TestVerif_C17_Replay$", "checks": 1, "timeout": 300},
-                  {"pkg": "x/cert/keeper", "run": "^TestVerif_C17$", "checks": {Q: 400, T: 6000}, "shards": {Q: 2, T: 16}, "steps": 60, "timeout": {Q: 600, T: 3000}, "shrinktime": "30s"}],
+                  {"pkg": "x/cert/keeper", "run": "^TestVerif_C17$", "checks": {Q: 400, T: 60000}, "shards": {Q: 2, T: 16}, "steps": 60, "timeout": {Q: 600, T: 3000}, "shrinktime": "30s"}],
     },
     "C19": {
         "level": "exploration", "floor": 0.7,
@@ -84,7 +84,7 @@ PROPS = {
         "assumptions": ["network denomination uakt; limits as returned by GetValidationConfig() at run time"],
         "units": [
             {"pkg": "app", "run": "^TestVerif_C19_Replay$", "checks": 1, "timeout": 300},
-            {"pkg": "app", "run": "^TestVerif_C19_Direct$", "checks": {Q: 3000, T: 60000}, "shards": {Q: 2, T: 16}, "timeout": {Q: 600, T: 3000}, "shrinktime": "30s"},
+            {"pkg": "app", "run": "^TestVerif_C19_Direct$", "checks": {Q: 3000, T: 250000}, "shards": {Q: 2, T: 16}, "timeout": {Q: 600, T: 3000}, "shrinktime": "30s"},
             {"pkg": "app", "run": "^TestVerif_C19_Chain$", "checks": {Q: 30, T: 400}, "shards": {Q: 2, T: 16}, "steps": 60, "timeout": {Q: 600, T: 3000}, "shrinktime": "30s"},
         ],
     },
@@ -118,7 +118,7 @@ PROPS = {
         "level_note": "Trusted: client-go fake clientsets as the recording cluster; the harness's NetworkPolicy evaluator (standard additive allow semantics); 'private ranges' = RFC1918.",
         "assumptions": ["manifest groups are valid per ValidateManifest; a Deploy error is a refusal, not a violation"],
         "units": [{"pkg": "provider/cluster/kube", "run": "^TestVerif_C11_Replay$", "checks": 1, "timeout": 300},
-                  {"pkg": "provider/cluster/kube", "run": "^TestVerif_C11$", "checks": {Q: 400, T: 8000}, "shards": {Q: 2, T: 16}, "timeout": {Q: 600, T: 3000}, "shrinktime": "30s"}],
+                  {"pkg": "provider/cluster/kube", "run": "^TestVerif_C11$", "checks": {Q: 400, T: 60000}, "shards": {Q: 2, T: 16}, "timeout": {Q: 600, T: 3000}, "shrinktime": "30s"}],
     },
     "C09": {
         "level": "exploration", "floor": 0.3,
@@ -141,7 +141,7 @@ PROPS = {
         "level_note": "Trusted: event-based synchronisation (a matching deployment event is followed by an observed Inventory() call before the history continues); the packing oracle only flags over-commitment (first-fit may legitimately refuse a packable set).",
         "assumptions": ["inventory poll period is one hour so refreshes happen only where the harness triggers them"],
         "units": [{"pkg": "provider/cluster", "run": "^TestVerif_C12_Replay$", "checks": 1, "timeout": 300},
-                  {"pkg": "provider/cluster", "run": "^TestVerif_C12$", "checks": {Q: 300, T: 6000}, "shards": {Q: 2, T: 16}, "steps": 40, "timeout": {Q: 600, T: 3000}, "shrinktime": "30s"}],
+                  {"pkg": "provider/cluster", "run": "^TestVerif_C12$", "checks": {Q: 300, T: 60000}, "shards": {Q: 2, T: 16}, "steps": 40, "timeout": {Q: 600, T: 3000}, "shrinktime": "30s"}],
     },
     "C13": {
         "level": "fault_enumeration", "floor": 0.4,
@@ -174,15 +174,15 @@ PROPS = {
         "technique": "property-based testing: rapid state machine vs per-subscriber FIFO model + generated concurrent runs with schedule-independent order oracle",
         "level_text": "Generated histories (publish/subscribe/clone/read/close) on the real bus agree step by step with a FIFO reference model, with a sentinel drain making 'nothing extra' deterministic; generated concurrent runs (1-4 publishers, slow/stalled readers, clone and close points) are checked for gap-free, duplicate-free, in-order, common-total-order delivery and for bounded-time completion of Publish/Close. Exploration, not proof: interleavings in the concurrent mode come from the Go scheduler.",
         "level_note": "Trusted: rapid, the Go runtime scheduler as interleaving source, 10 s bounded waits as the only liveness signal (a wait that expires is reported as blocking).",
-        "floor": 0.25,
+        "floor": 0.2,
         "assumptions": [
             "mode (b) relies on the Go scheduler for interleavings; the oracle is schedule independent",
             "closing a subscriber also shuts down its clones (documented bus-of-buses behaviour) and is modelled so",
         ],
         "units": [
-            {"pkg": "pubsub", "run": "^TestVerif_C15_Seq$", "checks": {Q: 400, T: 4000}, "shards": {Q: 1, T: 8},
+            {"pkg": "pubsub", "run": "^TestVerif_C15_Seq$", "checks": {Q: 400, T: 20000}, "shards": {Q: 1, T: 8},
              "race": {Q: False, T: True}, "timeout": {Q: 300, T: 1500}, "shrinktime": "20s"},
-            {"pkg": "pubsub", "run": "^TestVerif_C15_Conc$", "checks": {Q: 150, T: 1500}, "shards": {Q: 2, T: 16},
+            {"pkg": "pubsub", "run": "^TestVerif_C15_Conc$", "checks": {Q: 150, T: 6000}, "shards": {Q: 2, T: 16},
              "race": {Q: False, T: True}, "timeout": {Q: 300, T: 1500}, "shrinktime": "20s"},
         ],
     },
